@@ -60,7 +60,12 @@ class Scenario(apiworld.ApiWorld):
         p = self.p
         ready = self.loop.has_ready()
         if ready:
-            return [("run",)]
+            acts = [("run",)]
+            if p.get("midpush") and self.net.live() and self.used["acs"] < 1 and len(self.net.conns) > 1:
+                # the one environment event that may land in the middle of the client's reaction to a re-connection:
+                # the console volunteers a (changed) AC status while the refresh is still in flight
+                acts.append(("ac_status",))
+            return acts
         acts = []
         if self.loop.next_deadline() is not None and self.used["tick"] < p.get("max_tick", 4):
             acts.append(("tick",))
@@ -378,12 +383,14 @@ def run(tier, seed, part=None):
                  ({"max_tick": 4, "max_loss": 0, "max_edit": 0, "max_adv": 1, "poll": True}, 6, 0),
                  ({"max_tick": 1, "max_loss": 2, "max_edit": 1, "max_adv": 0, "poll": False, "max_silent": 1, "max_failopen": 1}, 7, 0),
                  ({"max_tick": 2, "max_loss": 1, "max_edit": 0, "max_adv": 1, "poll": True, "outages": [400.0]}, 6, 0),
+                 ({"max_tick": 0, "max_loss": 1, "max_edit": 1, "max_adv": 0, "poll": False, "midpush": True}, 4, 1),
                  ({"max_tick": 1, "max_loss": 1, "max_edit": 1, "max_adv": 1, "poll": False, "max_burst": 1, "outages": [10.0, 31.0]}, 6, 0)]
         cap = 45
     else:
         plans = [({"max_tick": 4, "max_loss": 2, "max_edit": 2, "max_adv": 2, "poll": False, "max_cmd": 1, "linkerr": True}, 8, 0),
                  ({"max_tick": 6, "max_loss": 1, "max_edit": 1, "max_adv": 2, "poll": True}, 8, 0),
-                 ({"max_tick": 3, "max_loss": 1, "max_edit": 1, "max_adv": 1, "poll": True}, 6, 1),
+                 ({"max_tick": 3, "max_loss": 1, "max_edit": 1, "max_adv": 1, "poll": True, "midpush": True}, 6, 1),
+                 ({"max_tick": 1, "max_loss": 2, "max_edit": 1, "max_adv": 0, "poll": False, "midpush": True}, 6, 1),
                  ({"max_tick": 2, "max_loss": 3, "max_edit": 1, "max_adv": 1, "poll": False, "max_silent": 1, "max_failopen": 2}, 9, 0)]
         cap = 300
     for gen in (4, 5):
@@ -392,7 +399,7 @@ def run(tier, seed, part=None):
                 extra = dict(extra, max_tick=3)
             params = dict(gen=gen, macro=(dev == 0), **extra)
             res = explorer.explore(SPEC, params, depth, dev, time_cap=cap, seed=seed, label=f"at{gen}/{extra}")
-            chk.add_explorer(f"at{gen}/" + ("poll" if extra.get("poll") else ("silent-console" if extra.get("max_silent") else "reconnect")), SPEC, params, res,
+            chk.add_explorer(f"at{gen}/" + ("mid-reaction-status" if extra.get("midpush") else "poll" if extra.get("poll") else ("silent-console" if extra.get("max_silent") else "reconnect")), SPEC, params, res,
                              {"depth": depth, "deviations": dev, **extra})
     chk.add_audit(SPEC, {"gen": 4, "macro": True, "max_tick": 2, "max_loss": 1, "max_edit": 1, "max_adv": 1, "poll": True}, 4, 0, limit=3000 if tier == "thorough" else 400)
     return chk.finish()
